@@ -44,3 +44,8 @@ claim("C16", "exploration", "Hypothesis case batches replayed in several fresh i
       "state; models (canonical JSON) and transcripts must be byte-identical except for the deliberately fresh security seeds; mandatory sessions/services, reachability from and return to "
       "the default session are checked on every generated model. Exploration over seeds, parameters and histories.",
       "Environments are sampled (a finite set of interpreter configurations on one machine); security seeds and keys derived from them are masked.")
+claim("C17", "exploration", "Hypothesis record sequences written through the real zstd log handler and read back through PenlogReader / hr in every navigation mode and container; ground truth from a tap handler",
+      "Generated record sequences (arbitrary Unicode, all levels, tags, exception info, 0..300 records) are written with add_zst_log_handler and read back from .zst, .gz, plain (with and "
+      "without priority prefix) and stdin, forward, reverse, from an offset, tail and head, with every priority threshold, through PenlogReader.records() and through hr; the result must "
+      "equal the corresponding slice of what a second handler on the same logger saw. Exploration over an unbounded sequence space.",
+      "The tap handler on the same logger is the ground truth for what was logged; exception text is merged into the message by Python's QueueHandler and compared by prefix.")
